@@ -59,7 +59,7 @@ func C01_InvariantPreserved() {
 		}
 	}
 	preS := f.preS
-	sentBefore := len(f.w.SMS.Sent)
+	sentBefore := len(f.w.SMS.Tried)
 	_, panicked, _ := f.serve(route, v, form)
 	if panicked {
 		return
@@ -105,8 +105,8 @@ func C01_InvariantPreserved() {
 		postSec, has := S.Lookup2(sms2fa.SessionSMSSecret)
 		where := f.smsSentTo
 		fresh := false
-		if len(f.w.SMS.Sent) > sentBefore {
-			m := f.w.SMS.Sent[len(f.w.SMS.Sent)-1]
+		if len(f.w.SMS.Tried) > sentBefore { // a message whose delivery failed went to nobody: its code is known to no other phone either
+			m := f.w.SMS.Tried[len(f.w.SMS.Tried)-1]
 			fresh = m.Text == postSec
 			where = verif.Ite(fresh, m.Number, where)
 		}
